@@ -355,7 +355,7 @@ type env struct {
 // meta/object schemes, the real per-type linter, the real ImageBackend over the fake registry,
 // the real FsPackageCache over the fault-injecting filesystem, the real ImageConfigStore over
 // the sim client; recording establisher, runtime hooks and dependency manager.
-func newEnv(typ *pkgType, seed uint64, sigGate bool) *env {
+func newEnv(typ *pkgType, seed uint64, sigGate bool, running ...string) *env {
 	e := &env{typ: typ}
 	e.w = sim.NewWorld(xrk.Scheme(), seed)
 	e.w.KeepBodies = false
@@ -376,7 +376,11 @@ func newEnv(typ *pkgType, seed uint64, sigGate bool) *env {
 		flags.Enable(features.EnableAlphaSignatureVerification)
 	}
 	ms, os := schemes()
-	vr, real := realVersioner(runningVersion)
+	rv := runningVersion
+	if len(running) > 0 && running[0] != "" {
+		rv = running[0]
+	}
+	vr, real := realVersioner(rv)
 	e.realV = real
 	mgr := xrk.NewManager(e.w, e.cl)
 	ro := []revision.ReconcilerOption{
